@@ -121,6 +121,7 @@ def generate(seed, run, tier):
     if rf.chance(0.25):
         ops.insert(rf.randint(0, len(ops)), {'op': 'crash_restart', 'stale_example': rf.chance(0.3)})
     ops = sched.add_bystanders(cfg, ops, Stream(seed, ID, run, 'bystanders'), p=0.12)
+    ops = sched.add_mode_scopes(cfg, ops, Stream(seed, ID, run, 'mixed_mode'))
     return {'cfg': cfg, 'ops': ops, 'run_seed': mix(seed, ID, run, 'run')}
 
 
